@@ -1,9 +1,17 @@
 """program streams for the backward analysis (C11) and the forward+backward verdicts (C02)"""
 import random, cfgprog
 
-CORPUS = [
-    # forward+backward: an assertion in a block that cannot reach the exit was discharged as safe (fixed defect)
+# forward+backward only: known finding (use_refined_invariants reports reachable, safe assertions as unreachable)
+FB_CORPUS = [
+    "cfg 2 2 1 mode=error fwd=0 delay=1 desc=1 fb=1 refined=1 maxref=5 nasserts=1 | B 0 assign 0 E 0 2 ; assert C ne E 1 1 0 1 1 | B 1 assume C lt E 1 2 0 2 ; assign 0 E 1 1 1 -7 | E 0 1",
+    # an assertion in a block that cannot reach the exit was discharged as safe (fixed defect)
     "cfg 4 1 3 mode=error fwd=1 delay=2 desc=1 fb=1 nasserts=1 | B 0 assign 0 E 0 0 | B 1 assert C le E 1 -1 0 1 1 | B 2 assign 0 E 0 2 | B 3 | E 0 1 0 2 2 3",
+]
+
+CORPUS = [
+    # known finding (C11): the backward analysis starts at the exit block and ignores assertions in blocks
+    # that cannot reach it (option deadend=1 marks such programs; the harness ignores the option)
+    "cfg 4 1 3 mode=error fwd=1 delay=2 desc=1 deadend=1 fb=1 nasserts=1 | B 0 assign 0 E 0 0 | B 1 assert C le E 1 -1 0 1 1 | B 2 assign 0 E 0 2 | B 3 | E 0 1 0 2 2 3",
     # backward division (fixed defect): y := 5 | 1 ; x := y / 2 ; assert(x != 2)
     "cfg 5 2 4 mode=error fwd=1 fb=1 nasserts=1 | B 0 | B 1 assign 1 E 0 5 | B 2 assign 1 E 0 1 | B 3 arith sdiv 0 1 k 2 ; assert C ne E 1 1 0 -2 1 | B 4 | E 0 1 0 2 1 3 2 3 3 4",
     "cfg 2 2 1 mode=error fwd=1 | B 0 assume C le E 1 -1 1 1 ; assume C le E 1 1 1 -5 ; arith sdiv 0 1 k 2 ; assert C ne E 1 1 0 -2 1 | B 1 | E 0 1",
@@ -18,12 +26,15 @@ SELECT_CORPUS = [
 def gen(seed, n, fb=False, modes=("error", "error", "good"), all_stmts=False):
     rng = random.Random(seed)
     lines = [c if fb else c.replace(" fb=1", "") for c in CORPUS]
+    if fb:
+        lines = FB_CORPUS + lines
     if all_stmts:
         lines = list(SELECT_CORPUS)
     for i in range(n):
         h, b, e, na = cfgprog.gen_program(rng, {"asserts": True, "bwd_safe": not all_stmts, "maxblocks": 9,
                                                 "more_select": all_stmts})
         mode = "error" if fb else rng.choice(modes)
+        dead = False
         if fb and rng.random() < 0.4:
             # blocks that cannot reach the exit block (abort-like ends), with an assertion
             for _ in range(rng.randint(1, 2)):
@@ -33,11 +44,14 @@ def gen(seed, n, fb=False, modes=("error", "error", "good"), all_stmts=False):
                 b.append(["assert %s %d" % (cfgprog.fmt_cst(c), na)])
                 e.append((src, len(b) - 1))
             hh = h.split(); hh[1] = str(len(b)); h = " ".join(hh)
+            dead = True
         opts = [("mode", mode), ("fwd", rng.choice([0, 1, 1])), ("delay", rng.choice([1, 2])), ("desc", rng.choice([0, 1, 2]))]
         if fb:
             opts += [("fb", 1), ("refined", rng.choice([0, 0, 1])), ("maxref", rng.choice([5, 5, 1, 2]))]
         if all_stmts:
             opts += [("bwdcheck", 0)]
+        if dead:
+            opts += [("deadend", 1)]
         opts += [("nasserts", na)]
         extra = []
         if mode == "good":
